@@ -525,3 +525,9 @@ CHECKS['C04'] = dict(
     min_nontrivial={'quick': 400, 'thorough': 1000},
     min_counters={'quick': {'roundtrips': 3500, 'delays_checked': 1200, 'bands_checked': 40000, 'ms_channels_checked': 4000}, 'thorough': {'roundtrips': 15000}},
 )
+
+# later additions to the workloads, stated once in manifest_meta._ADD: appended to the rule text recorded in the evidence
+from manifest_meta import _ADD as _LATER
+for _k, _v in _LATER.items():
+    if _k != 'C09':   # C09's rule text above already describes them
+        CHECKS[_k]['rule'] = CHECKS[_k]['rule'] + ' ' + _v
